@@ -2,6 +2,7 @@
   C09 — lone-number policy: the threshold only ever hides small isolated numbers.
 -/
 import T2N.Lemmas.Scanner
+import T2N.Lemmas.Thr
 
 namespace T2N.C09
 open T2N
@@ -71,5 +72,45 @@ theorem C09_isolated_held (t : Tracker) (isOrd : Bool) (text : Word) (v : Value)
     simpa using h
   rw [this]
   simp
+
+/-! ### end to end: the set of numbers recognised does not depend on the threshold; the threshold only
+decides which are reported -/
+
+/-- **C09 (monotone)**: raising the threshold never adds a rewrite — for every stream, hints, language:
+`occ(t₂) ⊑ occ(t₁)` (sub-list: same occurrences in the same order, some left out) whenever every value
+below `t₁` is below `t₂`. -/
+theorem C09_monotone (c1 c2 : ScanCfg) (h : ThrLe c1 c2) (toks : List Tok) :
+    ∃ o1 o2, findNumbers c1 toks = .ok o1 ∧ findNumbers c2 toks = .ok o2 ∧ o2.Sublist o1 := by
+  obtain ⟨o1, h1, _⟩ := findNumbers_ok c1 toks
+  obtain ⟨o2, h2, _⟩ := findNumbers_ok c2 toks
+  exact ⟨o1, o2, h1, h2, findNumbers_thr_sublist h toks o1 o2 h1 h2⟩
+
+/-- the configuration with a threshold nothing is below (0, negative, NaN, −∞) -/
+def atZero (c : ScanCfg) : ScanCfg := { c with thrLt := fun _ => false }
+
+/-- **C09 (subset of threshold 0)**: at any threshold, what is reported is a sub-list of what is
+reported at threshold 0: the threshold never changes *which* numbers are recognised, their spans,
+digits or values — it only hides some. -/
+theorem C09_subset_of_zero (c : ScanCfg) (toks : List Tok) :
+    ∃ o0 ot, findNumbers (atZero c) toks = .ok o0 ∧ findNumbers c toks = .ok ot ∧ ot.Sublist o0 :=
+  C09_monotone (atZero c) c ⟨rfl, rfl, rfl, fun _ h => by cases h⟩ toks
+
+/-- **C09 (threshold ≤ 0 or NaN rewrites everything)**: any two thresholds that no natural number is
+below give the same result -/
+theorem C09_zero_all (c1 c2 : ScanCfg) (hl : c1.lang = c2.lang) (hc : c1.cc = c2.cc) (hs : c1.sep = c2.sep)
+    (h1 : ∀ n, c1.thrLt n = false) (h2 : ∀ n, c2.thrLt n = false) (toks : List Tok) :
+    findNumbers c1 toks = findNumbers c2 toks := by
+  have : c1 = c2 := by
+    cases c1; cases c2
+    simp only at hl hc hs h1 h2
+    subst hl hc hs
+    congr
+    funext n
+    rw [h1, h2]
+  rw [this]
+
+/-! non-vacuity: `ThrLe` relates e.g. thresholds 5 and 10 -/
+example (c : ScanCfg) : ThrLe { c with thrLt := fun n => n < 5 } { c with thrLt := fun n => n < 10 } :=
+  ⟨rfl, rfl, rfl, fun n h => by simp at h ⊢; omega⟩
 
 end T2N.C09
